@@ -23,6 +23,7 @@ import (
 type step struct {
 	Client []hw.Spec `json:"c,omitempty"`
 	Server []hw.Spec `json:"s,omitempty"`
+	Resume bool      `json:"resume,omitempty"` // the stalled endpoint starts reading before this step
 }
 
 type scenario struct {
@@ -33,6 +34,7 @@ type scenario struct {
 	Steps      []step `json:"steps"`
 	Bound      int    `json:"bound"`
 	Class      string `json:"class,omitempty"` // scenario attribute used in signatures (e.g. "continuation")
+	Stall      string `json:"stall,omitempty"` // "server" / "client": that endpoint does not read (tiny socket buffer) until a step with Resume
 }
 
 type finding struct{ Sig, Desc string }
@@ -49,13 +51,26 @@ func run(sc scenario) (body func(), check func(r *vrt.Result) []finding) {
 	var w *hw.World
 	var prefaceErr error
 	body = func() {
-		w = hw.New(hw.Options{})
+		opts := hw.Options{}
+		var stall *vrt.Gate
+		switch sc.Stall {
+		case "server":
+			stall = &vrt.Gate{}
+			opts.ServerReaderGate, opts.ProxyToServerCap = stall, 48
+		case "client":
+			stall = &vrt.Gate{}
+			opts.ClientReaderGate, opts.ProxyToClientCap = stall, 48
+		}
+		w = hw.New(opts)
 		prefaceErr = w.Client.WritePreface(sc.PrefaceSeg)
 		vrt.WaitQuiescent()
 		if w.Server != nil {
 			w.Client.SetSegment(sc.Seg)
 			w.Server.SetSegment(sc.Seg)
 			for _, st := range sc.Steps {
+				if st.Resume && stall != nil {
+					stall.Open()
+				}
 				var ts []*vrt.Thread
 				if len(st.Client) > 0 {
 					ts = append(ts, w.Run(w.Client, st.Client))
@@ -433,6 +448,36 @@ func scenarios(tier string) []scenario {
 					{Server: []hw.Spec{{T: "headers", Stream: 3, Fields: resFields, EndStream: true}}},
 					{Client: []hw.Spec{{T: "wu", Stream: 1, Incr: 3}}},
 					{Client: []hw.Spec{{T: "wu", Stream: 1, Incr: 20}}},
+				}})
+		}
+	}
+	// F4c: a window release larger than the relay's internal queue toward a stalled receiver, with the sender's next
+	// frames of the same stream arriving while the release is still being pushed
+	for _, n := range []int{14, 16, 17, 40} {
+		var datas []hw.Spec
+		for i := 0; i < n; i++ {
+			datas = append(datas, hw.Spec{T: "data", Stream: 1, Len: 1})
+		}
+		for ti, tail := range [][]hw.Spec{
+			{{T: "headers", Stream: 1, Fields: trailerFields, EndStream: true}},
+			{{T: "rst", Stream: 1, Code: 8}},
+			{{T: "data", Stream: 1, Len: 2, EndStream: true}},
+		} {
+			out = append(out, scenario{Fam: "burst", Name: fmt.Sprintf("stalled server: %d queued DATA released at once, then tail %d, then the server resumes", n, ti), Stall: "server", Bound: 1,
+				Steps: []step{
+					{Client: []hw.Spec{{T: "settings"}}, Server: []hw.Spec{{T: "settings", Settings: [][2]uint32{{4, 0}}}}},
+					{Client: append([]hw.Spec{{T: "headers", Stream: 1, Fields: reqFields}}, datas...)},
+					{Server: []hw.Spec{{T: "wu", Stream: 1, Incr: uint32(n + 2)}}},
+					{Client: tail},
+					{Resume: true},
+				}})
+			out = append(out, scenario{Fam: "burst", Name: fmt.Sprintf("stalled client: %d queued response DATA released at once, then tail %d, then the client resumes", n, ti), Stall: "client", Bound: 1,
+				Steps: []step{
+					{Client: []hw.Spec{{T: "settings", Settings: [][2]uint32{{4, 0}}}, {T: "headers", Stream: 1, Fields: reqFields, EndStream: true}}, Server: []hw.Spec{{T: "settings"}}},
+					{Server: append([]hw.Spec{{T: "headers", Stream: 1, Fields: resFields}}, datas...)},
+					{Client: []hw.Spec{{T: "wu", Stream: 1, Incr: uint32(n + 2)}}},
+					{Server: tail},
+					{Resume: true},
 				}})
 		}
 	}
